@@ -141,18 +141,20 @@ def run_ops(b, ops_lines, tag, variant="default"):
 def tx_blocks(ops_lines):
     """split a history into [header lines], [blocks]; a block is one transaction or one stand-alone op.
     The header keeps the cfg line and the instantiation (never removed by shrinking)."""
-    head = []; blocks = []; cur = None
+    head = []; blocks = []; cur = None; notes = []
     for l in ops_lines:
         if l.startswith("cfg "):
             head.append(l); continue
+        if l.startswith("# ") and cur is None:
+            notes.append(l); continue          # a note belongs to the block that follows it
         if l == "tx_begin":
-            cur = [l]; continue
+            cur = notes + [l]; notes = []; continue
         if cur is not None:
             cur.append(l)
             if l in ("tx_commit", "tx_abort"):
                 blocks.append(cur); cur = None
             continue
-        blocks.append([l])
+        blocks.append(notes + [l]); notes = []
     if cur:
         blocks.append(cur)
     for k, bk in enumerate(blocks):
@@ -211,3 +213,11 @@ def matches_known(pid, failure, known):
         if k["property"] == pid and re.search(k["signature"], failure.get("what", "")):
             return k
     return None
+
+
+def signature(what):
+    """a failure's kind: its text with numbers, addresses and quoted data removed"""
+    w = re.sub(r"'[^']*'|\"[^\"]*\"|\{.*\}|\[.*\]|\(.*\)", "#", what)
+    w = re.sub(r"[a-z0-9/]{20,}", "#", w)
+    w = re.sub(r"[0-9]+", "#", w)
+    return w[:70]
